@@ -429,7 +429,7 @@ func (fr *Frame) applyContract(st *State, ct *Contract, callee *ssa.Function, si
 	}
 	res := vc.freshVal("r."+shortCallee(ct.Key), rt)
 	vc.assume(st, vc.wellTyped(st, res))
-	post := &SEnv{vc: vc, fr: fr, fn: envFn, cur: st, old: old, vars: env.vars, ct: ct}
+	post := &SEnv{vc: vc, fr: fr, fn: envFn, cur: st, old: old, vars: env.vars, ct: ct, assumeMode: true}
 	post.results = splitResults(vc, res, sig)
 	for _, en := range ct.Ensures {
 		vc.assume(st, post.evalBool(en.Expr))
@@ -497,7 +497,7 @@ func (vc *VC) pureUF(fn *ssa.Function, ct *Contract, args []Val) Val {
 		tag := "pureapp:" + key + ":" + strings.Join(terms, ",")
 		if !vc.uf[tag] {
 			vc.uf[tag] = true
-			env := &SEnv{vc: vc, fn: fn, cur: &State{pc: tTrue, v: map[string]Term{}}, vars: map[string]Val{}, ct: ct}
+			env := &SEnv{vc: vc, fn: fn, cur: &State{pc: tTrue, v: map[string]Term{}}, vars: map[string]Val{}, ct: ct, assumeMode: true}
 			env.fr = &Frame{vc: vc, fn: fn}
 			env.old = env.cur
 			var names []string
@@ -545,8 +545,10 @@ func (e *SEnv) modTargets(ms []SExpr) []modTarget {
 					out = append(out, modTarget{kind: "obj", ref: base.S[0]})
 				case *types.Map:
 					out = append(out, modTarget{kind: "map", ref: base.S[0], keyT: u.Key(), valT: u.Elem()})
+				case *types.Interface:
+					out = append(out, modTarget{kind: "obj", ref: base.S[1]})
 				default:
-					e.fail("modifies %s.*: not a pointer, slice or map", exprText(x.X))
+					e.fail("modifies %s.*: not a pointer, slice, map or interface", exprText(x.X))
 				}
 				continue
 			}
@@ -855,6 +857,7 @@ func (fr *Frame) loopHead(st *State, li *loopInfo) {
 	env2 := fr.specEnv(st, nil)
 	env2.block = li.header
 	env2.localsFirst = true
+	env2.assumeMode = true
 	for _, inv := range ls.Invariants {
 		vc.assume(st, env2.evalBool(inv.Expr))
 	}
@@ -869,18 +872,23 @@ func (fr *Frame) loopHead(st *State, li *loopInfo) {
 func (fr *Frame) loopBack(st *State, li *loopInfo) {
 	vc := fr.vc
 	ls := fr.loopSpec(li)
+	li.backs++
+	suffix := ""
+	if li.backs > 1 {
+		suffix = fmt.Sprintf("#%d", li.backs)
+	}
 	env := fr.specEnv(st, nil)
 	env.block = li.header
 	env.localsFirst = true
 	for _, inv := range ls.Invariants {
-		name := fmt.Sprintf("%s/loop%d/invariant[%s]/preserve", vc.fnKey, li.ord, inv.Label)
+		name := fmt.Sprintf("%s/loop%d/invariant[%s]/preserve%s", vc.fnKey, li.ord, inv.Label, suffix)
 		vc.oblige(st, name, "invariant-preserve", env.evalBool(inv.Expr), inv.Text)
 	}
 	if fr.contract != nil && fr.contract.HasMod {
 		fenv := fr.specEnv(fr.entry, fr.entry)
 		ts := fenv.modTargets(fr.contract.Modifies)
 		for _, g := range vc.frameGoal(fr.entry, st, ts) {
-			name := fmt.Sprintf("%s/loop%d/modifies[%s]/preserve", vc.fnKey, li.ord, g.name)
+			name := fmt.Sprintf("%s/loop%d/modifies[%s]/preserve%s", vc.fnKey, li.ord, g.name, suffix)
 			vc.oblige(st, name, "modifies", g.goal, "modifies clause (frame) across loop iteration")
 		}
 	}
